@@ -142,7 +142,16 @@ type finding struct {
 	key, what string
 }
 
+// kept: a header object obtained earlier together with a copy of its bytes taken at that time
+type kept struct {
+	hd     *hexary.MerkleHeader
+	root   []byte
+	leaves int64
+	at     string
+}
+
 type runner struct {
+	keep   []kept
 	w      *world
 	tb, ab db.Bucket
 	acc    hexary.Accumulator
@@ -172,7 +181,26 @@ func (r *runner) fresh(runs [][2]int) *hexary.MerkleHeader {
 	return acc.GetMerkleHeader()
 }
 
+// keepHeader retains a returned header: a header value once returned must never change (it is a function of the
+// sequence accumulated when it was taken), whatever is added later
+func (r *runner) keepHeader(at string, hd *hexary.MerkleHeader) {
+	if hd != nil {
+		r.keep = append(r.keep, kept{hd, append([]byte(nil), hd.RootHash...), hd.Leaves, at})
+	}
+}
+
+func (r *runner) checkKept(at string) {
+	for _, k := range r.keep {
+		if !bytes.Equal(k.hd.RootHash, k.root) || k.hd.Leaves != k.leaves {
+			r.viol("hexary:header:mutated-later", "%s: the header {%x,%d} returned at %s now reads {%x,%d}", at, k.root, k.leaves, k.at,
+				k.hd.RootHash, k.hd.Leaves)
+			return
+		}
+	}
+}
+
 func (r *runner) checkHeader(at string, hd *hexary.MerkleHeader, s *step) bool {
+	r.keepHeader(at, hd)
 	want := r.w.eval(&s.Hdr.Root)
 	if hd.Leaves == int64(s.Hdr.Leaves) && bytes.Equal(hd.RootHash, want) {
 		return true
@@ -436,6 +464,7 @@ func (r *runner) run(steps []step) int {
 			r.syncAll(at, s)
 		}
 		pos = s.Len
+		r.checkKept(at)
 		if r.acc.Len() != int64(s.Len) {
 			r.viol("hexary:len", "%s: Len()=%d, spec says %d", at, r.acc.Len(), s.Len)
 			return i
